@@ -20,6 +20,15 @@ _COUNTERS = {
 }
 # the per-family NLRI decoder of every family returned entries
 _COUNTERS.update({"decoded-nlri:" + f: 5000 for f in _FAMS})
+# class "inner length beyond its legal range, enclosing lengths grown consistently, real bytes inserted":
+# inputs per family whose NLRI-inner length field was grown that way (quick observes 300..4900), and per
+# nested-TLV attribute / AS_PATH / OPEN / outer field
+_COUNTERS.update({"grow-inner:" + f: 60 for f in _FAMS})
+_COUNTERS.update({"grow-inner:ipv4-mup": 500, "grow-inner:ipv6-mup": 300, "grow-inner:l2vpn-evpn": 700, "grow-inner:ls": 900,
+                  "grow-inner:ipv4-flowspec": 250, "grow-inner:ipv6-flowspec": 200, "grow-inner:ipv4-vpn": 150,
+                  "grow-inner:tunnel-encap": 350, "grow-inner:prefix-sid": 180, "grow-inner:ls-attr": 500,
+                  "grow-inner:as-path": 450, "grow-inner:aigp": 60, "grow:open": 130, "grow:outer": 12000,
+                  "mut:grow-consistent": 20000, "grow:finished": 1})
 
 CFG = dict(
     level="exploration",
@@ -33,6 +42,9 @@ CFG = dict(
               "no-stall: a complete frame by the protocol's own length field is never answered with need-more; "
               "a length field below the header size is rejected, not waited on or accepted",
               "fragment-independence: fragmented and whole delivery give the same message sequence and end state",
+              "mutation class grow-consistent: every nested length field (NLRI bit/byte lengths, EVPN/MUP route lengths and "
+              "the lengths inside them, flowspec, BGP-LS TLVs, label stacks, AS_PATH counts, tunnel-encap / prefix-SID / "
+              "LS-attribute / AIGP TLVs, capabilities) raised beyond its legal range with all enclosing lengths grown and real bytes inserted",
               "attribute value decoders applied to received bytes later (tunnel_encap, prefix_sid, ls attr): no-panic"],
     assumptions=["RTR has no protocol maximum PDU size: waiting for a huge declared length is not judged",
                  "BFD reception checks of RFC 5880 6.8.6 beyond framing (detect mult 0, discriminator 0, A/M bits) are counted, not judged",
